@@ -314,6 +314,20 @@ def mutate(rng, tgt, ios, with_groups=True, unmanaged=True, max_edits=None):
             tgt['acls'][ta][0:0] = [l1]
             dev['acls'][a][0:0] = [rename_refs(l1, {'gE': 'dE-DRC-0'}), lo] if rng.random() < 0.7 else [lo, rename_refs(l1, {'gE': 'dE-DRC-0'})]
             info['edits'].append('grp-edit-del')
+    if with_groups and not ios and dev['acls'] and rng.random() < 0.2:
+        # the group of a kept line is replaced (its content changes too much for an edit in place) and an ordinary line of
+        # the other action above it is deleted: the order of the two deletions matters for the packets of the deleted line
+        a = rng.choice(sorted(dev['acls']))
+        ta = next((k for k, v in amap.items() if v == a), a)
+        if ta in tgt['acls'] and 'gBlock' not in tgt['groups'] and 'gBlock' not in dev['groups']:
+            act, other = rng.choice([('deny', 'permit'), ('permit', 'deny')])
+            lg = ['extended', act, 'ip', 'object-group', 'gBlock', 'any4']
+            lo = ['extended', other, 'tcp', 'host', '10.66.1.%d' % rng.randrange(1, 9), 'any4', 'eq', '22']
+            tgt['groups']['gBlock'] = (['network'], [['network-object', '10.77.7.0', '255.255.255.0']])
+            dev['groups']['gBlock'] = (['network'], [['network-object', '10.66.1.0', '255.255.255.0'], ['network-object', '10.66.2.0', '255.255.255.0']])
+            tgt['acls'][ta][0:0] = [lg]
+            dev['acls'][a][0:0] = [lo, lg]
+            info['edits'].append('grp-replace-under-del')
     used = set(r for ls in dev['acls'].values() for l in ls for r in refs(l))
     for g in list(dev['groups']):
         if g not in used and '-DRC-' not in g:
